@@ -345,7 +345,7 @@ def replay(ctx, sub, case):
         return c03.prop_walk(case).failures
     if sub == 'behavioural-complex':
         from . import c15
-        return c15.prop_walk(case).failures
+        return c15.replay(ctx, sub, case)
     if sub.startswith('machine'):
         return run_ops(case['weighted'], case['ops']).failures
     if sub == 'behavioural-SIS':
@@ -380,6 +380,9 @@ def run(ctx):
         from . import c03, c15
         from ..runner import run_hypothesis
         run_hypothesis(ctx, 'behavioural-generic', weighted_spec_case(), c03.prop_walk, 200 if quick else 3000, rounds=2)
-        run_hypothesis(ctx, 'behavioural-complex', c15.model_case(), c15.prop_walk, 100 if quick else 2000, rounds=2)
+        run_hypothesis(ctx, 'behavioural-complex', c15.model_case(), c15.prop_walk, 150 if quick else 2000, rounds=2)
+        # complete history trees of C15's canonical models with heterogeneous per-node rates and lazy influence functions:
+        # the candidate set of the complex-contagion simulator is re-rated by the user's influence function
+        c01.run_exhaustive(ctx, 'behavioural-complex', c15.canonical_cases(quick), 'eonverif.props.c15', 'tree_prop')
     except ImportError:
         pass
